@@ -244,6 +244,49 @@ def gen_sig(rng, idx):
     return {"id": idx, "flavor": flavor, "tvs": tvs, "params": params, "ret": ret}
 
 
+STAR_TYPES = [(A("int"),), (A("str"),), (A("float"),), (A("bool"),), (A("object"),), (A("clsA"),), (A("int"), A("str"))]
+
+
+def gen_star_sig(rng, idx):
+    """flat signatures for the star-argument class: every parameter kind, with and without defaults"""
+    params = []
+    n_po = rng.choice([0, 1, 2, 2])
+    n_pk = rng.choice([0, 1, 2]) if n_po else rng.choice([1, 2, 3])
+    seen_default = False
+    for i in range(n_po + n_pk):
+        t = list(rng.choice(STAR_TYPES))
+        d = None
+        if seen_default or rng.random() < 0.4:
+            seen_default = True
+            d = {"o": literal_for(rng, tuple(t))}
+        params.append({"name": f"p{i}", "kind": "po" if i < n_po else "pk", "default": d, "ann": t})
+    if rng.random() < 0.25:
+        params.append({"name": "va", "kind": "vp", "default": None, "ann": list(rng.choice(STAR_TYPES))})
+    for i in range(rng.choice([0, 0, 1, 2])):
+        t = list(rng.choice(STAR_TYPES))
+        params.append({"name": f"k{i}", "kind": "ko", "default": {"o": literal_for(rng, tuple(t))} if rng.random() < 0.5 else None, "ann": t})
+    if rng.random() < 0.2:
+        params.append({"name": "vk", "kind": "vk", "default": None, "ann": list(rng.choice(STAR_TYPES))})
+    return {"id": idx, "flavor": rng.choice(["function", "function", "method", "staticmethod"]), "tvs": [], "params": params, "ret": [A("int")]}
+
+
+def gen_star_call(rng, sig):
+    """k leading positionals, then *xs of unknown length and / or **kw with unknown keys, plus explicit keywords"""
+    ps = sig["params"]
+    posl = [p for p in ps if p["kind"] in ("po", "pk")]
+    k = rng.randrange(0, len(posl) + 1)
+    pos = [arg_for(rng, p["ann"], sig) for p in posl[:k]]
+    r = rng.random()
+    elems = [t for t in u6.ELEMS if len(t) == 1]
+    star = list(rng.choice(elems)) if r < 0.8 else None
+    starkw = list(rng.choice(elems)) if r >= 0.8 or rng.random() < 0.3 else None
+    kw = []
+    for p in [p for p in ps if p["kind"] == "ko"] + ([p for p in posl[k:] if p["kind"] == "pk"] if star is None else []):
+        if rng.random() < (0.75 if p["default"] is None and starkw is None else 0.25):
+            kw.append([p["name"], arg_for(rng, p["ann"], sig)])
+    return {"pos": pos, "kw": kw, "star": star, "starkw": starkw}
+
+
 def gen_call(rng, sig):
     ps = sig["params"]
     posl = [p for p in ps if p["kind"] in ("po", "pk")]
@@ -762,6 +805,61 @@ def oracle_full(mod, sig, call):
             "must_diagnose": bool(bad or unsolvable), "must_accept": not bad and not unsolvable and not indeterminate}
 
 
+def oracle_star(mod, sig, call):
+    """Calls with a `*iterable` of unknown length and / or a `**mapping` with unknown keys, against a signature
+    without type variables: every expansion is tried under CPython's binder — 0..n+2 elements (each a
+    representative of the element type), every subset (<= 3) of the keyword-capable parameter names not passed
+    explicitly (plus a stranger key when the signature has **kwargs) with a representative of the value type.
+    must_diagnose: no expansion binds, or some binding expansion passes a non-member;  types_fine: some
+    expansion binds and every binding expansion passes members only (then an incompatible_argument is wrong;
+    binding-level complaints about star arguments are C05's subject and are not judged here)."""
+    import itertools
+
+    fn = runtime_callable(mod, sig)
+    params = sig["params"]
+    by_name = {p["name"]: p for p in params}
+    e_reps = reps_sval(call["star"]) if call.get("star") is not None else [None]
+    v_reps = reps_sval(call["starkw"]) if call.get("starkw") is not None else [None]
+    explicit = {n for n, _ in call["kw"]}
+    keys = [p["name"] for p in params if p["kind"] in ("pk", "ko") and p["name"] not in explicit]
+    if any(p["kind"] == "vk" for p in params):
+        keys.append("zz9")
+    npos_params = sum(1 for p in params if p["kind"] in ("po", "pk"))
+    lengths = range(0, npos_params + 3) if call.get("star") is not None else [0]
+    subsets = [()]
+    if call.get("starkw") is not None:
+        subsets = [ss for r in range(0, min(3, len(keys)) + 1) for ss in itertools.combinations(keys, r)]
+    any_bind, witness = False, None
+    for n in lengths:
+        for ss in subsets:
+            for e in (e_reps if n else [None]):
+                for v in (v_reps if ss else [None]):
+                    pos = list(call["pos"]) + [("typed", [e])] * n
+                    kw = {k: a for k, a in call["kw"]}
+                    kw.update({k: ("typed", [v]) for k in ss})
+                    try:
+                        ba = inspect.signature(fn).bind(*pos, **kw)
+                    except TypeError:
+                        continue
+                    any_bind = True
+                    for name, val in ba.arguments.items():
+                        p = by_name[name]
+                        xs = list(val) if p["kind"] == "vp" else list(val.values()) if p["kind"] == "vk" else [val]
+                        for x in xs:
+                            rep = x if isinstance(x, tuple) else arg_reps(x)
+                            if not fits_plain(rep, norm_ann(p["ann"])):
+                                witness = {"elements": n, "element": repr(e), "keys": list(ss), "value": repr(v),
+                                           "why": f"{rep[1]!r} passed for {name} is not a member of its declared type"}
+                                break
+                        if witness:
+                            break
+                    if witness:
+                        return {"must_diagnose": True, "types_fine": False, "witness": witness}
+    if not any_bind:
+        return {"must_diagnose": True, "types_fine": False, "witness": {"why": "no expansion of the star arguments binds"}}
+    return {"must_diagnose": False, "types_fine": True, "witness": None}
+
+
 def value_contains(val, r, fallback_counter):
     from pyanalyze.value import AnnotatedValue, AnyValue, KnownValue, MultiValuedValue, TypedValue
 
@@ -949,6 +1047,14 @@ def run(tier: str, replay: str | None = None):
                 s = gen_sig(rng, sid)
                 g.append((s, [gen_call(rng, s) for _ in range(7)]))
             groups.append(g)
+        # the star-argument class: flat signatures of every parameter kind x calls with *xs / **kw of unknown length
+        for _ in range(10 if tier == "quick" else 90):
+            g = []
+            for _ in range(8):
+                sid += 1
+                ss_ = gen_star_sig(rng, sid)
+                g.append((ss_, [gen_star_call(rng, ss_) for _ in range(7)]))
+            groups.append(g)
 
     terms, meta = [], []
     impl = {}
@@ -1018,6 +1124,17 @@ def run(tier: str, replay: str | None = None):
                     if (of["must_diagnose"] and not diagnosed) or (of["must_accept"] and diagnosed):
                         oracle_fail.append((case_in, {"what": "representative-object oracle: " + ("an argument has a representative outside its declared type / no value of a type variable fits all its bounds, but the call is accepted" if of["must_diagnose"] else "every representative fits and every type variable has a fitting value, but the call is diagnosed"),
                                                       "impl_codes": r["codes"], "impl_descr": r["descr"], "oracle": {k: of[k] for k in ("bad", "unsolvable", "indeterminate")}}))
+            if (call.get("star") is not None or call.get("starkw") is not None) and not sig["tvs"] and sig["flavor"] != "dataclass" \
+                    and all(not isinstance(norm_ann(p["ann"]), dict) for p in sig["params"]):
+                os_ = oracle_star(mod, sig, call)
+                hist["star_calls_judged"] = hist.get("star_calls_judged", 0) + 1
+                hist.setdefault("star_verdicts", {"must_diagnose": 0, "types_fine": 0})["must_diagnose" if os_["must_diagnose"] else "types_fine"] += 1
+                if os_["must_diagnose"] and not diagnosed:
+                    oracle_fail.append((case_in, {"what": "star arguments of unknown length: no expansion binds, or an expansion that CPython binds passes a non-member, but the call is accepted",
+                                                  "witness": os_["witness"], "impl_codes": r["codes"]}))
+                elif os_["types_fine"] and "incompatible_argument" in r["codes"]:
+                    oracle_fail.append((case_in, {"what": "star arguments of unknown length: every expansion that CPython binds passes members only, but an incompatible_argument is reported",
+                                                  "impl_codes": r["codes"], "impl_descr": r["descr"]}))
             if not diagnosed and call.get("star") is None and call.get("starkw") is None:
                 # execute the call; the inferred type must contain the result
                 try:
